@@ -134,8 +134,8 @@ var All = []*Spec{
 		LevelNote: "session scripts are confluent by construction (strict request/ack, no close of the transport), checked by the solo runs never deadlocking; masks and nonces are not reproducible in this engine and influence no decision.",
 		DesignRef: "§4 C19", Technique: "deterministic simulation: seeded race-detector-invisible task scheduler over real goroutines + solo/concurrent differential + go race detector"},
 	{ID: "C20", Engine: "dial", Level: "fault_enumeration", Quick: 6400, Thorough: 400000, QuickCap: 150, ThorCap: 1700,
-		Rule:      "scenarios are sampled from the seed: context kind (Background / cancel-only / with deadline at instants around every peer event), Dialer.Timeout (none / shorter / longer), connect delay, ws/wss (stub TLS), WrapConn, peer (valid 101 after a delay in 1-4 segments with gaps and optional trailing frame / rejecting / silent / write-blocking), read buffer and per-read segment size; for each scenario the cancellation instant is enumerated: no cancel, cancel after return (order B), cancel at 7 fake-time instants, and cancel at entry and at successful exit of EVERY Read/Write on the conn with the watcher goroutine run to quiescence before the call proceeds (order A, incl. inside the final Read); evaluations = scenarios, fault_points_enumerated = Dial executions, each in its own synctest bubble; distinct = trace digests (return instants, conn call ledgers, errors)",
-		Stub:      []string{"clock, timers, context deadlines: testing/synctest fake clock (Go 1.26.8)", "net.Conn: dial.Conn (deadline-honouring, in-bubble sync.Cond + timers, full call ledger)", "NetDial / TLSClient / WrapConn: stubs returning the simulated conn, NetDial honours ctx during its connect delay", "peer: in-bubble timers delivering response segments; Sec-WebSocket-Accept computed independently (crypto/sha1)", "github.com/gobwas/pool -> /verif/simpool"},
+		Rule:      "scenarios are sampled from the seed: context kind (Background, TODO, values-only, WithoutCancel / cancel-only incl. causes and an application-defined type / with deadline at instants around every peer event), Dialer.Timeout (none / shorter / longer / already elapsed), transports whose deadline calls fail or are kept by a WrapConn layer, the debugging dialer, an earlier Dial in the same bubble, connect delay, ws/wss (stub TLS), WrapConn, peer (valid 101 after a delay in 1-4 segments with gaps and optional trailing frame / rejecting / silent / write-blocking), read buffer and per-read segment size; for each scenario the cancellation instant is enumerated: no cancel, cancel after return (order B), cancel at 7 fake-time instants, and cancel at entry and at successful exit of EVERY Read/Write on the conn with the watcher goroutine run to quiescence before the call proceeds (order A, incl. inside the final Read); evaluations = scenarios, fault_points_enumerated = Dial executions, each in its own synctest bubble; distinct = trace digests (return instants, conn call ledgers, errors)",
+		Stub:      []string{"clock, timers, context deadlines: testing/synctest fake clock (Go 1.26.8)", "net.Conn: dial.Conn (deadline-honouring, in-bubble sync.Cond + timers, full call ledger)", "NetDial / TLSClient / WrapConn: stubs returning the simulated conn, NetDial honours ctx during its connect delay", "peer: in-bubble timers delivering response segments; Sec-WebSocket-Accept computed independently (crypto/sha1)", "github.com/gobwas/pool -> /verif/simpool", "one scenario in ~250 leaves the simulator (NetDial == nil needs a real socket): the library's own net.Dialer against a silent listener on the kernel's loopback in wall-clock time, Timeout 20 ms, harness safety net 15 s; kept out of digests; skipped where loopback cannot be listened on"},
 		Assume:    append([]string{"the runtime's choice between simultaneously ready select cases cannot be seeded; enumerated orders (A) and (B) never make both ready at once"}, assumeCommon...),
 		LevelText: "fault enumeration on a fake clock: per sampled scenario every cancellation point is executed. Oracle from the conn ledger and the fake clock: success => conn not closed, deadlines cleared, no call on the conn during a following hour even after a late cancel; failure with a conn => Close before return; context ended during handshake I/O and nothing else failed => errors.Is(err, ctx.Err()); Dial returns no later than min(context end, start+Timeout); no goroutine started by Dial survives its return (goroutine count at quiescence, and bubble exit would deadlock).",
 		LevelNote: "the error value when Dialer.Timeout (not the caller's context) expires is not checked; scenarios in which nothing can ever end the wait are not generated; deadline instants avoid exact ties with peer events by 1 ms.",
